@@ -32,6 +32,9 @@ class PGen(Gen):
 
     def __init__(self, rnd, naming):
         super().__init__(rnd, naming=naming, method_form=0.0, called=0.0, pack=0.0)
+        # (operators nested in stage lambdas written with their keyword now and then - more often than elsewhere: whether a
+        # packaged value gets through to them is exactly the shape question)
+        self.keyword_operators = 0.25 if rnd.random() < 0.5 else 0.04
 
     def num(self, env, d):
         r = self.r
